@@ -379,6 +379,12 @@ theorem replay11 : replay lit11 = .ok g11 := replay_eq_raw raw11 inv11.ok
 example : compactEvents g11 = compactEvents g10 :=
   C05_idempotent lit10 reach10 g10 g11 replay10 (compact10 ▸ replay11)
 example : ReachOK (runCmd lit10 env11 .compact).log := C05_compaction_is_a_reachable_step lit10 reach10 g10 raw10 env11 envOK11
+/-- C05 (torn claim): lit4 — E, A, B with B waiting for A — plus the whole claim line of a `claim` of A whose state line was cut:
+    A is todo with claimant "cut" (not a CLI-reachable state); compaction keeps exactly that -/
+example : ∃ g g', replay (lit4 ++ [Event.claim "AAAAAA" "cut" (some 450)]) = .ok g ∧ replay (compactEvents g) = .ok g' ∧ ObsEq g' g ∧ g'.tombs = [] :=
+  C05_half_written_claim_preserved lit4 reach4 "AAAAAA" "cut" 450 (by decide)
+example : (replay (lit4 ++ [Event.claim "AAAAAA" "cut" (some 450)])).toOption.bind (fun g => (g.find? "AAAAAA").map fun t => (t.st, t.claimedBy))
+    = some (.todo, "cut") := by decide
 
 /-! C06 -/
 example : ∃ g, replay demoLog = .ok g ∧ Inv06 g := C06_inv_reach demoLog demo_reach
